@@ -13,8 +13,10 @@ def op_merge(sim: Sim, a) -> str:
     si, ti, tm, table = sim.pick_table(ds, a["s"], a["t"])
     if tm.merge_unspecified:
         return "skip"  # (model-only mode) the rectangles are unknown until the library is asked
-    if tm.hedge or tm.vedge or tm.styles:
-        return "skip"  # bound: ranges are merged before anything is drawn or styled (merging replaces the cell objects)
+    if (tm.hedge or tm.vedge or tm.styles) and not sim.cfg.get("strokes_on_merged"):
+        return "skip"  # only the look profile (visible-side edge model) merges ranges over cells that carry strokes or styles
+    if tm.__dict__.get("opaque_look") and (tm.hedge or tm.vedge or tm.styles):
+        return "skip"
     rects = []
     for r0, c0, r1, c1 in a["rects"]:
         r0, c0 = r0 % tm.nrows, c0 % tm.ncols
@@ -33,6 +35,7 @@ def op_merge(sim: Sim, a) -> str:
             for c in range(rect[1], rect[3] + 1):
                 if (r, c) != (rect[0], rect[1]):
                     tm.rows[r][c] = None
+                    tm.styles.pop((r, c), None)  # a covered cell becomes a placeholder: its value and style go
         if rect[0] == 0 or rect[1] == 0 or rect[2] == tm.nrows - 1 or rect[3] == tm.ncols - 1:
             sim.probe("merge_at_table_edge")
         if rect[0] == rect[2] or rect[1] == rect[3]:
